@@ -89,7 +89,16 @@ def run(ctx):
             if 'hex' in r:
                 items.append((c, bytes.fromhex(r['hex'])))
                 ctx.count('model-assembled')
-        for c, b, impl, model in P.run_decode(drv, treq, items):
+        decoded = P.run_decode(drv, treq, items)
+        # the flat FM-94 reading (Spec.flatWalk; C01_flat_eq_tree) evaluated on every case next to the tree walk
+        flat = drv.batch([treq] + [{'op': 'dec-data-flat', 'ids': c.ids, 'compressed': c.comp, 'n': c.n, 'bits': C.data_bits(b)}
+                                   for c, b in items])[1:]
+        for (c, b, impl, model), fl in zip(decoded, flat):
+            if fl.get('wf') and (fl.get('subsets') != model.get('subsets') or fl.get('err') != model.get('err')):
+                ctx.violation('the flat FM-94 reading and the tree walk of the model disagree (contradicts theorem C01_flat_eq_tree)',
+                              {**c.replay(), 'message_hex': b.hex()}, signature={'stage': 'flat-vs-tree'}, no_failing_input=True)
+            ctx.count('flat-reading-wf' if fl.get('wf') else 'flat-reading-not-wf')
+        for c, b, impl, model in decoded:
             ctx.case({'ids': c.ids, 'n': c.n, 'compressed': c.comp, 'edition': c.edition}, nontrivial=P.nontrivial(c),
                      sample=len(ctx.samples) < 6)
             ctx.traces += 1
